@@ -317,6 +317,7 @@ ExecOp(S, p) ==
                                 !.obs.sent[p][target.p] = Append(@, m)],
                       [t |-> "DeliverAction", to |-> target.p, m |-> m])
     [] op.op = "select" -> ExecSelect(S, p)
+    [] op.op = "let"    -> [S EXCEPT !.proc[p].regs[op.dst] = Eval(op.val, P.regs), !.proc[p].pc = @ + 1]
     [] op.op = "fail"   -> Fail(S, p, op.e)
     [] op.op = "ret"    -> [S EXCEPT !.proc[p].result = Some(OkR(Eval(op.val, P.regs))), !.halt = TRUE]
 
@@ -334,7 +335,11 @@ NotifyLocal(S, p, order) ==
   IF order = <<>> THEN S
   ELSE LET a == Head(order)
            r == S.proc[p].result[1]
-           S1 == IF r.ok
+           \* executor.rs step: notify_result(awaiter, pid, value, vec![]) - with an empty heap vector the
+           \* injection of a value that carries a binary fails and the error is ignored (`.ok()`): such a
+           \* result reaches a same-executor awaiter only through the environment, like any other
+           S1 == IF r.ok /\ HasBin(r.v) THEN S
+                 ELSE IF r.ok
                  THEN Wake([S EXCEPT !.proc[a].awaiting = APut(@, p, Some(r.v))], a)
                  ELSE [S EXCEPT !.proc[a].result = Some(r)]
        IN NotifyLocal(S1, p, Tail(order))
